@@ -402,15 +402,24 @@ ORD_SPEC = {           # helper -> set of orderings of compare(v1, v2) for which
 }
 
 
+def temporal_fn(F, simple):
+    """the free function of that simple name somewhere below dmntk_feel::temporal (the helpers may be moved between the module's files); None when absent or ambiguous"""
+    c = [n for n, h in F.hir.items() if n.startswith(TEMPORAL) and n.split("::")[-1] == simple and "{closure" not in n and "body" in h
+         and not re.search(r"::[A-Z]\w*::%s$" % re.escape(simple), n) and not n.startswith("<")]
+    if TEMPORAL + simple in c:
+        return TEMPORAL + simple
+    return c[0] if len(c) == 1 else None
+
+
 def temporal_order_rule(F, rep):
     """Dates, times and date-times are compared through one function compare(a, b) -> Option<Ordering>; equal / before / after / between only look at its
     answer. The answer ranges over a finite set {Less, Equal, Greater, None}, so each helper is decided exhaustively: the body is evaluated symbolically
     for every combination of orderings (and of the two closed/open flags) and compared with the specification. Nothing is executed."""
     rid = rep.rule("R09.6", "temporal equal/before/after/between answer exactly as the ordering of compare() prescribes, for every combination of orderings and interval flags; the public wrappers pass their operands in order")
-    helpers = {n: TEMPORAL + n for n in list(ORD_SPEC) + ["between", "compare"]}
+    helpers = {n: temporal_fn(F, n) for n in list(ORD_SPEC) + ["between", "compare"]}
     for n, full in helpers.items():
-        if full not in F.hir:
-            rep.missing_anchor(rid, full)
+        if full is None:
+            rep.missing_anchor(rid, "temporal helper `%s`" % n)
             return
     OUT = ("Less", "Equal", "Greater", None)
 
@@ -466,7 +475,7 @@ def temporal_order_rule(F, rep):
             else:
                 rep.ok(rid, key, "16 ordering combinations agree with %s x, x %s hi" % ("lo <=" if lc else "lo <", "<=" if rc else "<"))
     # the std comparison traits of the temporal types (used by `<`, `<=`, ... and by `=` on these kinds) must agree with compare() as well
-    wrappers = {n for n in F.hir if re.match(r"^dmntk_feel::temporal::(date::FeelDate|FeelTime|FeelDateTime)::(equal|before|before_or_equal|after|after_or_equal)$", n)}
+    wrappers = {n for n in F.hir if re.match(r"^dmntk_feel::temporal::((?:\w+::)*(?:FeelDate|FeelTime|FeelDateTime))::(equal|before|before_or_equal|after|after_or_equal)$", n)}
 
     def make_hook2(o):
         flip = {"Less": "Greater", "Greater": "Less", "Equal": "Equal", None: None}
@@ -486,7 +495,7 @@ def temporal_order_rule(F, rep):
             return None
         return hook
     for name, h in sorted(F.hir.items()):
-        m = re.match(r"^<dmntk_feel::temporal::(date::FeelDate|FeelTime|FeelDateTime) as core::cmp::(PartialOrd|PartialEq)>::(partial_cmp|eq)$", name)
+        m = re.match(r"^<dmntk_feel::temporal::((?:\w+::)*(?:FeelDate|FeelTime|FeelDateTime)) as core::cmp::(PartialOrd|PartialEq)>::(partial_cmp|eq)$", name)
         if not m or (m.group(3) == "eq" and m.group(1).endswith("FeelDate")):
             continue
         bad = []
@@ -513,7 +522,7 @@ def temporal_order_rule(F, rep):
     # the public wrappers (FeelDate / FeelTime / FeelDateTime) delegate to the helper of the same name with (self, other[, ...]) in order
     nw = 0
     for name, h in sorted(F.hir.items()):
-        m = re.match(r"^dmntk_feel::temporal::(date::FeelDate|FeelTime|FeelDateTime)::(equal|before|before_or_equal|after|after_or_equal|between)$", name)
+        m = re.match(r"^dmntk_feel::temporal::((?:\w+::)*(?:FeelDate|FeelTime|FeelDateTime))::(equal|before|before_or_equal|after|after_or_equal|between)$", name)
         if not m:
             continue
         nw += 1
@@ -618,9 +627,9 @@ def mirror_rule(F, rep):
     import copy
     n = 0
     for fn in ("compare", "subtract"):
-        h = F.hir.get(TEMPORAL + fn)
+        h = F.hir.get(temporal_fn(F, fn) or "")
         if h is None:
-            rep.missing_anchor(rid, TEMPORAL + fn)
+            rep.missing_anchor(rid, "temporal function `%s`" % fn)
             continue
         params = [p.get("name") for p in h.get("params", [])]
         if len(params) != 2:
